@@ -307,7 +307,7 @@ def run(chk: Check, tier: str, seed: int) -> None:
         chk.traces += 2
         live = {h["it"] for h in rec["hist"] if h["act"] == "open"}
         if len(live) >= 2:
-            chk.nontrivial.add(json.dumps(rec, sort_keys=True))
+            chk.nontrivial.add(hash(json.dumps(rec, sort_keys=True)))
         if isinstance(res, list):  # abnormal (hang / crash)
             for sig, case, what in res:
                 chk.violation(sig, case, what)
